@@ -617,6 +617,7 @@ class MaskEnum:
     def __init__(self, ctx, mask):
         n = zn(mask)
         self.n = n
+        self.mask = mask
         self.cnt = ctx.fresh_int("cnt")
         self.SEL = z3.Function(ctx.fresh_name("SEL"), z3.IntSort(), z3.IntSort())
         self.RNK = z3.Function(ctx.fresh_name("RNK"), z3.IntSort(), z3.IntSort())
